@@ -25,6 +25,7 @@ pub enum Leaf {
     BrTable(Vec<usize>, usize), // i32.const 0 ; br_table
     Return,
     Unreachable,
+    MemCopy(usize, usize),  // i32.const 0 x3 ; memory.copy from memory #src to memory #dst (two memories)
 }
 
 #[derive(Clone, Debug)]
@@ -45,6 +46,7 @@ struct Env {
     locals: Vec<(LocalId, ValType)>, // params first
     nparams: usize,
     globals: Vec<GlobalId>,
+    mems: Vec<walrus::MemoryId>,
     helper: FunctionId,
     multi_ty: walrus::TypeId,
     /// the same signature as a sequence type, obtained either from the id or through `InstrSeqType::new`
@@ -62,7 +64,7 @@ fn gen_nodes(rng: &mut Rng, depth: usize, enclosing: usize, budget: &mut i64, en
         let c = rng.below(100);
         if c < 50 || depth == 0 {
             let i32s: Vec<usize> = env_locals.iter().filter(|l| l.1 == ValType::I32).map(|l| l.0).collect();
-            let leaf = match rng.below(11) {
+            let leaf = match rng.below(12) {
                 0 | 1 => Leaf::ConstDrop(rng.next() as i32),
                 2 if !env_locals.is_empty() => {
                     let a = *rng.pick(env_locals);
@@ -86,6 +88,7 @@ fn gen_nodes(rng: &mut Rng, depth: usize, enclosing: usize, budget: &mut i64, en
                         Leaf::Unreachable
                     }
                 }
+                11 if rng.chance(2, 3) => Leaf::MemCopy(rng.below(2) as usize, rng.below(2) as usize),
                 _ => Leaf::ConstDrop(rng.below(10) as i32),
             };
             v.push(Node::Leaf(leaf));
@@ -188,6 +191,13 @@ fn flatten(nodes: &[Node], depth_stack: &mut Vec<usize>, out: &mut Vec<String>, 
                     out.push(format!("GlobalSet/g:{}", g));
                 }
                 Leaf::Call => out.push(format!("Call/f:{}", ctx.helper_index)),
+                Leaf::MemCopy(src, dst) => {
+                    for _ in 0..3 {
+                        out.push("I32Const/i:0".into());
+                    }
+                    // the binary names the destination memory first
+                    out.push(format!("MemoryCopy/m:{}/m:{}", dst, src));
+                }
                 Leaf::Add => {
                     out.push("I32Const/i:1".into());
                     out.push("I32Const/i:2".into());
@@ -300,6 +310,7 @@ fn op_token(i: &Instr) -> String {
         Instr::GlobalGet(e) => format!("GlobalGet/g:{}", e.global.index()),
         Instr::GlobalSet(e) => format!("GlobalSet/g:{}", e.global.index()),
         Instr::Call(e) => format!("Call/f:{}", e.func.index()),
+        Instr::MemoryCopy(e) => format!("MemoryCopy/m:{}/m:{}", e.dst.index(), e.src.index()),
         Instr::Binop(_) => "I32Add".into(),
         Instr::Unop(_) => "I32Eqz".into(),
         Instr::Return(_) => "Return".into(),
@@ -347,6 +358,12 @@ fn build_nodes(b: &mut InstrSeqBuilder, nodes: &[Node], enclosing: &mut Vec<Inst
                     Leaf::TeeDrop(a) => vec![Const { value: Value::I32(1) }.into(), LocalTee { local: env.locals[*a].0 }.into(), Drop {}.into()],
                     Leaf::GlobalRW(g) => vec![GlobalGet { global: env.globals[*g] }.into(), GlobalSet { global: env.globals[*g] }.into()],
                     Leaf::Call => vec![Call { func: env.helper }.into()],
+                    Leaf::MemCopy(src, dst) => vec![
+                        Const { value: Value::I32(0) }.into(),
+                        Const { value: Value::I32(0) }.into(),
+                        Const { value: Value::I32(0) }.into(),
+                        MemoryCopy { src: env.mems[*src], dst: env.mems[*dst] }.into(),
+                    ],
                     Leaf::Add => vec![Const { value: Value::I32(1) }.into(), Const { value: Value::I32(2) }.into(), Binop { op: BinaryOp::I32Add }.into(), Drop {}.into()],
                     Leaf::BrIf(t) => vec![Const { value: Value::I32(0) }.into(), BrIf { block: enclosing[*t] }.into()],
                     Leaf::Br(t) => vec![Br { block: enclosing[*t] }.into()],
@@ -539,7 +556,9 @@ pub fn build_case(seed: u64, case: u64) -> Built {
     let multi_ty = module.types.add(&[ValType::I32], &[ValType::I32]);
     // the documented way to get a sequence type from a signature, in half of the cases
     let multi_sty: InstrSeqType = if rng.chance(1, 2) { InstrSeqType::new(&mut module.types, &[ValType::I32], &[ValType::I32]) } else { multi_ty.into() };
-    let env = Env { locals: locals.clone(), nparams, globals: globals.clone(), helper, multi_ty, multi_sty };
+    // two memories, so that an instruction can name two different ones
+    let mems: Vec<walrus::MemoryId> = (0..2).map(|_| module.memories.add_local(false, false, 1, None, None)).collect();
+    let env = Env { locals: locals.clone(), nparams, globals: globals.clone(), mems, helper, multi_ty, multi_sty };
     let env_locals: Vec<(usize, ValType)> = locals.iter().enumerate().map(|(k, l)| (k, l.1)).collect();
     let mut budget = *rng.pick(&[4i64, 12, 30, 60]);
     let depth = rng.range(1, 6) as usize;
